@@ -194,6 +194,7 @@ func checkC17(r *evid.Run) {
 		})
 	}
 	c17Random(r, pool)
+	sessionPhaseWasm(r, bin) // Session.tla: the page is one process that renders again and again
 	r.Set("tinywasm_worker_deaths", pool.Deaths())
 	r.Set("exhaustive", true)
 	r.Set("rule", "C01's well-formed documents and C02's line-pool documents (malformed included), each run through the default build and the tinywasm build (a second process compiled with -tags tinywasm) in 5 modes: text, custom branch strings, JSON, dry-run with an extension, JSON and dry run in one call; decisions compared with each other and with the specification, bytes compared when accepted; non-trivial = at least 2 lines")
